@@ -68,7 +68,9 @@ func scanMetaOut(c *core.Ctx) []ob {
 
 func scanScaleOut(c *core.Ctx) []ob {
 	metaCur = &metaCfg{rule: "SCALEOUT", fields: scaleFields, deleg: &scaleDeleg, cmpEdge: true, stat: "scaleout_ops"}
-	defer func() { metaCur = &metaCfg{rule: "METAOUT", fields: metaFields, deleg: &metaDeleg, cmpEdge: true, stat: "metaout_ops"} }()
+	defer func() {
+		metaCur = &metaCfg{rule: "METAOUT", fields: metaFields, deleg: &metaDeleg, cmpEdge: true, stat: "metaout_ops"}
+	}()
 	return scanMetaCfg(c)
 }
 
